@@ -1,2 +1,210 @@
+"""Kani back end.
+
+A Kani unit is a cargo crate:
+  mode "inplace"   units/<u>/crate is the crate; it has a path dependency on the REAL
+                   /repo crate (hooks give visibility only) — nothing extracted.
+  mode "extracted" units/<u>/lib.rs is a template; the real function text is pulled from
+                   /repo on every run (vx.template) into .build/kani-src/<u>/src/target.rs.
+Harnesses are written against a value source `S: Src` (units/common/src.rs) so that the
+same harness body runs under Kani (symbolic) and natively in /verif/replay against the
+real crates with the concrete values Kani's counterexample gives.
+"""
+import hashlib
+import json
+import os
+import re
+import shutil
+import subprocess
+import time
+
+from . import template
+from .extract import AnchorLost
+
+KANI_ENV = {'CARGO_NET_OFFLINE': 'true'}
+
+
+def _scan_trusted(text):
+    from .run import scan_trusted
+    return scan_trusted(text)
+
+
+def parse_kani_output(out):
+    """returns {harness: {'status','checks','failed','failed_checks':[..],'time'}}"""
+    res = {}
+    thread_h = {}
+    cur = None  # for non -j output
+    blocks = {}
+    for line in out.splitlines():
+        m = re.match(r'(?:Thread (\d+): )?Checking harness ([\w:]+)\.\.\.', line)
+        if m:
+            th = m.group(1) or '0'
+            h = m.group(2).split('::')[-1]
+            thread_h[th] = h
+            cur = th
+            blocks.setdefault(h, [])
+            continue
+        m = re.match(r'Thread (\d+): ?(.*)', line)
+        if m:
+            cur = m.group(1)
+            if cur in thread_h:
+                blocks[thread_h[cur]].append(m.group(2))
+            continue
+        if cur is not None and cur in thread_h:
+            blocks[thread_h[cur]].append(line)
+    for h, ls in blocks.items():
+        txt = '\n'.join(ls)
+        st = None
+        if 'VERIFICATION:- SUCCESSFUL' in txt:
+            st = 'SUCCESSFUL'
+        elif 'VERIFICATION:- FAILED' in txt:
+            st = 'FAILED'
+        m = re.search(r'\*\* (\d+) of (\d+) failed', txt)
+        failed_checks = re.findall(r'Failed Checks: (.*)', txt)
+        t = re.search(r'Verification Time: ([\d.]+)s', txt)
+        res[h] = {'status': st, 'failed': int(m.group(1)) if m else None, 'checks': int(m.group(2)) if m else None,
+                  'failed_checks': failed_checks, 'time': float(t.group(1)) if t else 0.0, 'text': txt[-3000:]}
+    return res
+
+
 def run_unit(u, tier, root, build):
-    raise SystemExit('kani backend not built yet')
+    res = {'unit': u['name'], 'backend': 'kani', 'undecided': None, 'obligations': [], 'failures': [],
+           'functions': [], 'trusted': [], 'rewrites': [], 'extracted': [], 'dropped': [], 'cmds': [],
+           'solver_s': 0.0, 'wall_s': 0.0, 'canaries': []}
+    t0 = time.time()
+    env = dict(os.environ)
+    env.update(KANI_ENV)
+    env['CARGO_TARGET_DIR'] = os.path.join(build, 'kani', u['name'])
+    rf = u.get('rustflags', '')
+    if rf:
+        env['RUSTFLAGS'] = rf
+    common = os.path.join(root, 'units', 'common')
+    if u.get('mode') == 'inplace':
+        crate = os.path.join(u['dir'], 'crate')
+        shutil.copy('/repo/Cargo.lock', os.path.join(crate, 'Cargo.lock'))
+        src_text = ''
+        for dp, _, fs in os.walk(os.path.join(crate, 'src')):
+            for f in fs:
+                src_text += open(os.path.join(dp, f)).read()
+        res['trusted'] = _scan_trusted(src_text)
+        res['extracted'] = [{'file': p, 'kind': 'crate (in place, nothing extracted)', 'name': p,
+                             'sha256': _hash_tree(os.path.join('/repo', p))} for p in u.get('inplace_sources', [])]
+    else:
+        crate = os.path.join(build, 'kani-src', u['name'])
+        os.makedirs(os.path.join(crate, 'src'), exist_ok=True)
+        try:
+            tpl = open(os.path.join(u['dir'], u.get('template', 'target.rs'))).read()
+            gen = template.render(tpl, flags=[tier] + u.get('flags', []), canary=False)
+        except AnchorLost as e:
+            res['undecided'] = 'lost anchor: %s' % e
+            return res
+        except (template.TemplateError, template.Unsupported) as e:
+            res['undecided'] = 'template/unsupported: %s' % e
+            return res
+        _write_if_changed(os.path.join(crate, 'src', 'target.rs'), gen.text)
+        for f in ('harness.rs',):
+            _write_if_changed(os.path.join(crate, 'src', f), open(os.path.join(u['dir'], f)).read())
+        _write_if_changed(os.path.join(crate, 'src', 'src_kani.rs'), open(os.path.join(common, 'src_kani.rs')).read())
+        _write_if_changed(os.path.join(crate, 'src', 'lib.rs'), open(os.path.join(common, 'lib_extracted.rs')).read())
+        _write_if_changed(os.path.join(crate, 'Cargo.toml'), open(os.path.join(common, 'Cargo_extracted.toml')).read().replace('@NAME@', 'vx_' + u['name']))
+        res['extracted'] = gen.extracted
+        res['rewrites'] = gen.rewrites
+        res['dropped'] = gen.dropped
+        res['generated'] = os.path.join(crate, 'src', 'target.rs')
+        res['generated_sha256'] = hashlib.sha256(gen.text.encode()).hexdigest()
+        res['trusted'] = _scan_trusted(gen.text + open(os.path.join(u['dir'], 'harness.rs')).read())
+    hs = [h for h in u['harnesses'] if tier in h.get('tiers', ['quick', 'thorough'])]
+    if not hs:
+        res['undecided'] = 'no harness for tier ' + tier
+        return res
+    cmd = ['cargo', 'kani', '-Z', 'stubbing', '-Z', 'function-contracts', '-j', str(u.get('jobs', 8)), '--output-format', 'terse']
+    cmd += u.get('kani_args', [])
+    for h in hs:
+        cmd += ['--harness', h['name']]
+    res['cmds'] = [' '.join(cmd) + '   (cwd=%s, RUSTFLAGS=%r)' % (crate, rf)]
+    try:
+        p = subprocess.run(cmd, cwd=crate, env=env, capture_output=True, text=True, timeout=u.get('timeout', 1800))
+    except subprocess.TimeoutExpired:
+        res['undecided'] = 'cargo kani timed out after %d s' % u.get('timeout', 1800)
+        return res
+    out = p.stdout + '\n' + p.stderr
+    parsed = parse_kani_output(out)
+    if not parsed:
+        res['undecided'] = 'cargo kani produced no harness results (build error?): ' + out[-2500:]
+        res['wall_s'] = time.time() - t0
+        return res
+    for h in hs:
+        r = parsed.get(h['name'])
+        label = h.get('obligation', '%s::%s' % (u['name'], h['name']))
+        if r is None or r['status'] is None:
+            res['undecided'] = (res['undecided'] or '') + ' harness %s gave no verdict (crash/timeout/OOM);' % h['name']
+            continue
+        res['solver_s'] += r['time']
+        if h.get('canary'):
+            ok = r['status'] == 'FAILED'
+            res['canaries'].append({'name': h['name'], 'failed_as_required': ok})
+            if not ok:
+                res['undecided'] = (res['undecided'] or '') + ' canary %s did not fail;' % h['name']
+            continue
+        from .run import label_props
+        props = label_props(label) or u.get('serves', [])
+        o = {'name': label, 'props': props, 'backend': 'kani/cbmc', 'harness': h['name'],
+             'status': 'discharged' if r['status'] == 'SUCCESSFUL' else 'failed',
+             'cbmc_checks': r['checks'], 'solver_s': r['time']}
+        if h.get('bounded'):
+            o['bounded'] = h['bounded']
+        else:
+            o['complete'] = h.get('complete', 'loop-free over the full input domain')
+        res['obligations'].append(o)
+        if r['status'] == 'FAILED':
+            f = {'obligation': label, 'props': props, 'message': '; '.join(r['failed_checks'])[:500] or 'verification failed',
+                 'rendered': r['text'], 'label': label, 'block': h['name'], 'serves': props, 'harness': h['name']}
+            _concrete_playback(u, h, crate, env, f, root, build)
+            res['failures'].append(f)
+    res['wall_s'] = time.time() - t0
+    return res
+
+
+def _write_if_changed(path, text):
+    if os.path.exists(path) and open(path).read() == text:
+        return
+    with open(path, 'w') as f:
+        f.write(text)
+
+
+def _hash_tree(path):
+    h = hashlib.sha256()
+    if os.path.isfile(path):
+        h.update(open(path, 'rb').read())
+        return h.hexdigest()
+    for dp, ds, fs in sorted(os.walk(path)):
+        ds.sort()
+        for f in sorted(fs):
+            if f.endswith('.rs') or f.endswith('.toml'):
+                h.update(f.encode())
+                h.update(open(os.path.join(dp, f), 'rb').read())
+    return h.hexdigest()
+
+
+def _concrete_playback(u, h, crate, env, f, root, build):
+    """ask Kani for concrete values for the failing harness, then run the same harness body
+    natively against the real code in /verif/replay."""
+    cmd = ['cargo', 'kani', '-Z', 'stubbing', '-Z', 'function-contracts', '-Z', 'concrete-playback',
+           '--concrete-playback=print', '--harness', h['name']] + u.get('kani_args', [])
+    try:
+        p = subprocess.run(cmd, cwd=crate, env=env, capture_output=True, text=True, timeout=u.get('timeout', 1800))
+    except subprocess.TimeoutExpired:
+        return
+    out = p.stdout + p.stderr
+    vals = []
+    m = re.search(r'let concrete_vals: Vec<Vec<u8>> = vec!\[(.*?)\n\s*\];', out, re.S)
+    if not m:
+        return
+    for vm in re.finditer(r'vec!\[([\d,\s]*)\]', m.group(1)):
+        vals.append([int(x) for x in vm.group(1).replace(' ', '').split(',') if x != ''])
+    f['concrete_input'] = {'harness': h['name'], 'kani_concrete_vals': vals}
+    # native replay on the real code
+    from . import replay
+    rr = replay.native_replay(u, h, vals, root, build)
+    f['replay_result'] = rr
+    if rr is not None and rr.get('reproduced') is False and rr.get('ran'):
+        f['spurious'] = True
